@@ -109,7 +109,7 @@ def run(ctx):
                 if t and ('%' in p or '_' in p):
                     ctx.nontriv((t, p))
                 ctx.stat('%s_%s' % (name, 'match' if b else 'nomatch'))
-        ctx.sample({'impl': name, 'rows': cs[0]['rows'][:4], 'model': exp[0][:4], 'implementation': got[0][:4]})
+        ctx.sample_safe(lambda: {'impl': name, 'rows': cs[0]['rows'][:4], 'model': exp[0][:4], 'implementation': got[0][:4]})
 
 
 def eval_case(case):
